@@ -274,7 +274,7 @@ func c02(c *Ctx) {
 				if r, ok := b.Instrs[len(b.Instrs)-1].(*ssa.Return); ok {
 					if nonNilError(r) == "nil" {
 						c.R.Bad(load.FuncName(rmf)+": success return without controller ref @b"+itoa(b.Index), c.pos(r.Pos()), "a success return does not pass AddControllerReference")
-					} else if flow.Default.Any(r.Results[0], func(v ssa.Value) bool { return v == add[0].Value() }) {
+					} else if flow.Default.Any(cfgx.ReturnValue(r, 0), func(v ssa.Value) bool { return v == add[0].Value() }) {
 						c.R.OK(load.FuncName(rmf)+": returns AddControllerReference result", c.pos(r.Pos()), "success is the success of AddControllerReference")
 					}
 				}
